@@ -378,6 +378,7 @@ def shard(ctx):
     # cases are executed outside Hypothesis: require/enable_readers call inspect.stack(), which is slow under Hypothesis' deep stacks
     seen = set()
     try:
+        invalid = [0]
         for rnd in rnds:
             if ctx.out_of_time():
                 break
@@ -390,7 +391,14 @@ def shard(ctx):
             try:
                 E = Mo.expectations(case)
             except Mo.Invalid as x:
-                raise core.HarnessError("generator produced an invalid case (%s): %s" % (x, key[:600]))
+                # the generator's bookkeeping and the model's domain check disagree on a rare shape (seen: a library whose
+                # form-consuming reader macro is used as the last item of a group): not a case; counted, and a harness error
+                # only if it stops being rare
+                ctx.count("skipped:generated-case-outside-the-model's-domain")
+                invalid[0] += 1
+                if invalid[0] > 20 and invalid[0] * 10 > len(seen):
+                    raise core.HarnessError("generator produces too many invalid cases (%d of %d), last: (%s) %s" % (invalid[0], len(seen), x, key[:400]))
+                continue
             cls = ["driver:" + d for d in E["drivers"]] + list(E["features"])
             cls.append("streams:%d" % len(case["streams"]))
             cls.append("libs-used:%d" % len(E["libs_used"]))
